@@ -43,6 +43,7 @@ static mut WAITS: usize = 0x5EED_0000_0000_0027;
 static mut WAIT_D: [Duration; MAXA] = [Duration::from_nanos(0x5EED_0028); MAXA];
 static mut WAIT_AFTER: [usize; MAXA] = [0x5EED_0000_0000_0029; MAXA];
 static mut MAX_REM: usize = 0x5EED_0000_0000_002A;
+static mut RETRY0: u32 = 0x5EED_002B;
 
 fn reset_local() {
     unsafe {
@@ -119,6 +120,7 @@ pub fn capacity_next_stub(_c: &mut emit_batcher::Capacity, _last_len: usize) -> 
 #[derive(Clone, Copy)]
 struct Ctx {
     pre: Pre,
+    idle0: Duration,
     k: u32,
     plan: u32,
     len_lo: usize,
@@ -192,13 +194,26 @@ fn exec_step(len_lo: usize, max_len: usize, nt: usize, nf: usize, k: u32, panics
     kani::assume(q.len >= len_lo && q.len <= max_len);
     let pre = Pre { cap, q, open: kani::any(), in_batch: kani::any(), n_take: nt, n_flush: nf, truncated: kani::any() };
     let (tx, mut rx) = build(&pre);
-    v::set_retry_max(&mut rx, k);
+    // HISTORY: the receiver-local state is whatever earlier batches left behind — an arbitrary retry counter
+    // (reachable values: 0..=budget+1), an arbitrary current retry back-off <= 10 s and idle back-off <= 500 ms
+    // (whole milliseconds). Every NEW batch must nevertheless get the full budget and a restarted back-off.
+    let retry0: u32 = kani::any();
+    kani::assume(retry0 <= k + 1);
+    let rd_s: u8 = kani::any();
+    let rd_ms: u16 = kani::any();
+    kani::assume(rd_ms < 1000 && (rd_s < 10 || (rd_s == 10 && rd_ms == 0)));
+    let retry_delay0 = Duration::new(rd_s as u64, rd_ms as u32 * 1_000_000);
+    let id_ms: u16 = kani::any();
+    kani::assume(id_ms <= 500);
+    let idle0 = Duration::new(0, id_ms as u32 * 1_000_000);
+    v::set_receiver_history(&mut rx, retry0, k, retry_delay0, idle0);
     let plan: u32 = if panics { kani::any() } else { 0 };
     kani::assume(plan < 256);
     unsafe {
         MAX_REM = max_len;
+        RETRY0 = retry0;
         TX = &tx;
-        CTX = Some(Ctx { pre, k, plan, len_lo, max_len, panics, twin });
+        CTX = Some(Ctx { pre, idle0, k, plan, len_lo, max_len, panics, twin });
         CHECKED = false;
         shim::PANIC_PLAN = plan;
         shim::LOCK_HOOK = Some(hook);
@@ -212,7 +227,7 @@ fn exec_step(len_lo: usize, max_len: usize, nt: usize, nf: usize, k: u32, panics
 }
 
 fn check_iteration(ctx: Ctx, post: v::Snapshot) {
-    let Ctx { pre, k, plan, len_lo, max_len, panics, twin } = ctx;
+    let Ctx { pre, idle0, k, plan, len_lo, max_len, panics, twin } = ctx;
     let m = unsafe { POST_CALLS };
     let pr = unsafe { POST_RAN };
     // the swap: the pending batch is taken whole, an empty one without watchers is left behind
@@ -234,7 +249,11 @@ fn check_iteration(ctx: Ctx, post: v::Snapshot) {
     if pre.q.len == 0 {
         assert!(m == 0, "the processor is not called for an empty hand-off");
         if pre.open {
-            assert!(unsafe { POST_WAITS } == 1 && unsafe { WAIT_D[0] } == ms(1), "idle: one wait of the first idle delay");
+            // idle back-off: next step from wherever it stood, non-decreasing, capped at 500 ms
+            let next = idle0 + idle0 + ms(1);
+            let expect = if next < ms(500) { next } else { ms(500) };
+            assert!(unsafe { POST_WAITS } == 1 && unsafe { WAIT_D[0] } == expect, "idle: one wait of the next idle delay");
+            assert!(expect >= idle0 && expect <= ms(500));
             waits = 1;
         } else {
             // C08: closed and drained => `exec` returns (this acquisition is Receiver::drop: no wait happened,
@@ -247,7 +266,7 @@ fn check_iteration(ctx: Ctx, post: v::Snapshot) {
         let mut done = false;
         let mut i = 0usize;
         while i < MAXA && !done {
-            assert!(i as u32 <= k, "at most budget+1 attempts");
+            assert!(i as u32 <= k, "at most budget+1 attempts, counted from this batch's own first attempt");
             if bit(plan, c) {
                 // on_batch itself panics: not run to completion (model: not run), batch given up
                 assert!(m == i, "a panicking processor call ends the batch");
@@ -278,10 +297,12 @@ fn check_iteration(ctx: Ctx, post: v::Snapshot) {
                         failed += 1;
                         let rem = unsafe { REM[i] };
                         if o == 2 && rem.len > 0 && (i as u32) < k {
-                            // retry: exactly one wait with the next back-off, then the remainder
+                            // a retryable failure with budget left (the budget of THIS batch: whatever earlier
+                            // batches used does not count) is retried: one wait with the restarted back-off, then
+                            // exactly the remainder
                             delay = if delay * 2 + 700 < 10_000 { delay * 2 + 700 } else { 10_000 };
-                            assert!(unsafe { POST_WAITS } > waits, "a retry waits first");
-                            assert!(unsafe { WAIT_AFTER[waits] } == i + 1 && unsafe { WAIT_D[waits] } == ms(delay), "back-off 700 ms, 2.1 s, ...");
+                            assert!(unsafe { POST_WAITS } > waits, "a retryable failure within the batch's own budget is retried (after a wait)");
+                            assert!(unsafe { WAIT_AFTER[waits] } == i + 1 && unsafe { WAIT_D[waits] } == ms(delay), "back-off restarts for every batch: 700 ms, 2.1 s, ...");
                             waits += 1;
                             expect_arg = rem;
                         } else {
@@ -319,6 +340,7 @@ fn check_iteration(ctx: Ctx, post: v::Snapshot) {
     kani::cover!(len_lo > 0 || (pre.q.len == 0 && pre.open && pr[2] as u32 == nf.min(1) && !bit(plan, c)), "empty hand-off, idle wait");
     kani::cover!(len_lo > 0 || (pre.q.len == 0 && !pre.open), "closed and empty: returns");
     kani::cover!(!(ne && k > 0) || (m == 2 && processed == 1), "retry then success");
+    kani::cover!(!(ne && k > 0) || (m == 2 && unsafe { RETRY0 } == k + 1), "retry although an earlier batch exhausted its budget");
     kani::cover!(
         !(ne && k > 0) || (m as u32 == k + 1 && failed as u32 == k + 1 && unsafe { OUT[last] } == 2 && unsafe { REM[last] }.len > 0),
         "retry budget exhausted"
